@@ -12,7 +12,9 @@ package main
 import (
 	"archive/zip"
 	"bytes"
+	"compress/flate"
 	"fmt"
+	"hash/crc32"
 	"math/rand"
 	"strings"
 )
@@ -24,7 +26,17 @@ type xmlinMut struct {
 	J, M, N int
 }
 
-type xmlinPk struct{ Part, Brk, Zip, Entry string }
+type xmlinPk struct {
+	Part, Brk, Zip, Entry string
+	Lie                   xmlinLie
+}
+
+// one lie of the archive directory (XmlIn!ZipLies): field, entry it is told about, and the declared value as the
+// specification gives it: a*v + 2^e + b of the true value v (sizes, checksum) or <<actual, declared>> (method)
+type xmlinLie struct {
+	Fld, Val, Tgt string
+	Lv            [3]int64
+}
 
 type xmlinInput struct {
 	Ctx  string
@@ -51,7 +63,19 @@ func xmlinDecode(op Op) (*xmlinInput, error) {
 	if !ok {
 		return nil, fmt.Errorf("Open without pk")
 	}
-	in.Pk = xmlinPk{fgnStr(pm, "part"), fgnStr(pm, "brk"), fgnStr(pm, "zip"), fgnStr(pm, "entry")}
+	in.Pk = xmlinPk{Part: fgnStr(pm, "part"), Brk: fgnStr(pm, "brk"), Zip: fgnStr(pm, "zip"), Entry: fgnStr(pm, "entry")}
+	in.Pk.Lie = xmlinLie{Fld: "none"}
+	if lm, ok := pm["lie"].(map[string]interface{}); ok {
+		in.Pk.Lie = xmlinLie{Fld: fgnStr(lm, "fld"), Val: fgnStr(lm, "val"), Tgt: fgnStr(lm, "tgt")}
+		lv, _ := lm["lv"].([]interface{})
+		if len(lv) != 3 {
+			return nil, fmt.Errorf("Open: lie without its value")
+		}
+		for i := range lv {
+			f, _ := lv[i].(float64)
+			in.Pk.Lie.Lv[i] = int64(f)
+		}
+	}
 	return in, nil
 }
 
@@ -62,7 +86,7 @@ const (
 
 var xmlinWP = map[string]bool{"inline": true, "anchor": true, "extent": true, "docPr": true, "simplePos": true, "positionH": true,
 	"positionV": true, "align": true, "posOffset": true, "wrapSquare": true, "wrapTight": true, "wrapPolygon": true, "start": true,
-	"lineTo": true, "cNvGraphicFramePr": true, "effectExtent": true}
+	"lineTo": true, "cNvGraphicFramePr": true, "effectExtent": true, "wrapThrough": true, "wrapTopAndBottom": true, "wrapNone": true}
 var xmlinA = map[string]bool{"graphic": true, "graphicData": true, "blip": true, "stretch": true, "fillRect": true, "xfrm": true,
 	"off": true, "ext": true, "prstGeom": true, "graphicFrameLocks": true, "picLocks": true}
 var xmlinPic = map[string]bool{"pic": true, "nvPicPr": true, "cNvPr": true, "cNvPicPr": true, "blipFill": true, "spPr": true}
@@ -96,6 +120,14 @@ var xmlinAttrs = map[string][][2]string{
 	"headerReference": {{"w:type", "default"}, {"r:id", "rId6"}}, "footerReference": {{"w:type", "default"}, {"r:id", "rId7"}},
 	"hyperlink": {{"r:id", "rId8"}, {"w:history", "1"}}, "ins": {{"w:id", "7"}, {"w:author", "Reviewer"}},
 	"unknown": {{"w:val", "u"}}, "align": {}, "posOffset": {},
+	"bottom":  {{"w:val", "single"}, {"w:sz", "4"}, {"w:space", "0"}, {"w:color", "auto"}, {"w:w", "100"}, {"w:type", "dxa"}},
+	"right":   {{"w:val", "single"}, {"w:sz", "4"}, {"w:space", "0"}, {"w:color", "auto"}, {"w:w", "100"}, {"w:type", "dxa"}},
+	"insideV": {{"w:val", "single"}, {"w:sz", "4"}}, "tl2br": {{"w:val", "single"}, {"w:sz", "4"}}, "tr2bl": {{"w:val", "single"}, {"w:sz", "4"}},
+	"keepLines": {{"w:val", "1"}}, "pageBreakBefore": {{"w:val", "1"}}, "widowControl": {{"w:val", "0"}}, "snapToGrid": {{"w:val", "0"}},
+	"szCs": {{"w:val", "24"}}, "highlight": {{"w:val", "yellow"}}, "strike": {{"w:val", "1"}},
+	"tblInd": {{"w:w", "120"}, {"w:type", "dxa"}}, "textDirection": {{"w:val", "tbRl"}},
+	"positionV": {{"relativeFrom", "paragraph"}}, "effectExtent": {{"l", "0"}, {"t", "0"}, {"r", "9525"}, {"b", "9525"}},
+	"wrapThrough": {{"wrapText", "bothSides"}, {"distL", "114300"}, {"distR", "114300"}}, "wrapTopAndBottom": {{"distT", "0"}, {"distB", "0"}},
 }
 
 // values of the unusual attribute classes (every attribute of the element gets the value)
@@ -513,8 +545,59 @@ func xmlinPackage(in *xmlinInput, main []byte, mainPresent bool, seed int64) []x
 	return out
 }
 
+var xmlinLieTarget = map[string]string{"main": "word/document.xml", "styles": "word/styles.xml", "media": "word/media/image1.png"}
+
+// xmlinLieOf computes what the header declares from the true value: a*v + 2^e + b (modulo 2^64).
+func xmlinLieOf(lv [3]int64, v uint64) uint64 {
+	out := uint64(lv[0])*v + uint64(lv[2])
+	if lv[1] >= 0 {
+		out += uint64(1) << uint(lv[1])
+	}
+	return out
+}
+
+// xmlinPutLying writes one entry whose header (local and central alike) declares what the lie says; the data are honest.
+func xmlinPutLying(zw *zip.Writer, name string, data []byte, lie *xmlinLie) {
+	actual, declared := uint16(zip.Deflate), uint16(zip.Deflate)
+	if lie.Fld == "method" {
+		actual, declared = uint16(lie.Lv[0]), uint16(lie.Lv[1])
+	}
+	stored := data
+	switch actual {
+	case zip.Store:
+	case zip.Deflate:
+		var cb bytes.Buffer
+		fw, _ := flate.NewWriter(&cb, flate.DefaultCompression)
+		fw.Write(data)
+		fw.Close()
+		stored = cb.Bytes()
+	default:
+		panic(fmt.Sprintf("xmlin: cannot store an entry with method %d", actual))
+	}
+	fh := &zip.FileHeader{Name: name, Method: declared, CRC32: crc32.ChecksumIEEE(data),
+		CompressedSize64: uint64(len(stored)), UncompressedSize64: uint64(len(data))}
+	switch lie.Fld {
+	case "usize":
+		fh.UncompressedSize64 = xmlinLieOf(lie.Lv, fh.UncompressedSize64)
+	case "csize":
+		fh.CompressedSize64 = xmlinLieOf(lie.Lv, fh.CompressedSize64)
+	case "crc":
+		fh.CRC32 = uint32(xmlinLieOf(lie.Lv, uint64(fh.CRC32)))
+	case "method":
+	default:
+		panic("xmlin: unknown directory field " + lie.Fld)
+	}
+	w, err := zw.CreateRaw(fh)
+	if err == nil {
+		_, err = w.Write(stored)
+	}
+	if err != nil {
+		panic("xmlin: zip write: " + err.Error())
+	}
+}
+
 // xmlinZip writes the archive in the requested shape.
-func xmlinZip(entries []xmlinEntry, shape string, seed int64) []byte {
+func xmlinZip(entries []xmlinEntry, shape string, lie *xmlinLie, seed int64) []byte {
 	method := zip.Deflate
 	switch shape {
 	case "nobytes":
@@ -543,6 +626,10 @@ func xmlinZip(entries []xmlinEntry, shape string, seed int64) []byte {
 		zw.SetOffset(int64(buf.Len()))
 	}
 	put := func(name string, data []byte) {
+		if lie != nil && lie.Fld != "none" && (lie.Tgt == "all" || xmlinLieTarget[lie.Tgt] == name) {
+			xmlinPutLying(zw, name, data, lie)
+			return
+		}
 		w, err := zw.CreateHeader(&zip.FileHeader{Name: name, Method: method})
 		if err == nil {
 			_, err = w.Write(data)
